@@ -203,6 +203,8 @@ func c46CheckArmor(rt *rapid.T, c *ev.Collector, f34 bool) {
 		c.Case(true, fmt.Sprintf("armor-layout|%d|%q|%v", ll, eol, withCRC), fmt.Sprintf("armor:layout eol=%q crc=%v", eol, withCRC))
 	}
 
+	c46StatedChecksum(rt, c, a, bufSize)
+
 	// corruption: the checksum must be enforced
 	kind := rapid.IntRange(0, 3).Draw(rt, "corrupt")
 	var bad []byte
@@ -257,6 +259,103 @@ func c46CheckArmor(rt *rapid.T, c *ev.Collector, f34 bool) {
 		c.Case(false, "", "armor:corruption-still-consistent", "armor-corruption="+what)
 	default:
 		c.Case(false, "", "armor:corruption-malformed(no demand)", "armor-corruption="+what)
+	}
+}
+
+// c46StatedChecksum: the body is armored by the reference encoder and the
+// checksum line(s) are put there by construction, so the harness knows whether
+// a checksum is present and what it states.  RFC 4880 6.1: a stated CRC-24 that
+// differs from the body's is an error by the time the body has been read; the
+// only optional case is the absence of the line.
+func c46StatedChecksum(rt *rapid.T, c *ev.Collector, a *c46Armor, bufSize int) {
+	body := a.body
+	switch rapid.IntRange(0, 5).Draw(rt, "ckbody") {
+	case 0:
+		body = nil
+	case 1:
+		body = body[:min(len(body), 3)]
+	}
+	realCRC := refpgp.CRC24(body)
+	other := append(append([]byte{}, body...), 'x')
+	values := []struct {
+		name string
+		v    uint32
+	}{
+		{"zero", 0}, {"one", 1}, {"all-ones", 0xffffff}, {"real^1", realCRC ^ 1}, {"real^0x800000", realCRC ^ 0x800000},
+		{"real-byte-swapped", realCRC>>16&0xff | realCRC&0xff00 | realCRC&0xff<<16}, {"crc-of-empty-body", 0xB704CE}, {"crc-of-another-body", refpgp.CRC24(other)},
+		{"real", realCRC},
+	}
+	line := func(v uint32) string {
+		return "=" + base64.StdEncoding.EncodeToString([]byte{byte(v >> 16), byte(v >> 8), byte(v)})
+	}
+	base := refpgp.EncodeArmor(a.typ, nil, body, 64, "\n", false)
+	endAt := bytes.LastIndex(base, []byte("-----END "))
+	with := func(lines ...string) []byte {
+		out := append([]byte{}, base[:endAt]...)
+		for _, l := range lines {
+			out = append(out, l+"\n"...)
+		}
+		return append(out, base[endAt:]...)
+	}
+	val := values[rapid.IntRange(0, len(values)-1).Draw(rt, "ckvalue")]
+	layout := rapid.SampledFrom([]string{"one-line", "one-line", "one-line", "one-line", "two-lines", "before-body-end", "three-chars", "five-chars", "equals-only", "absent"}).Draw(rt, "cklayout")
+	var text []byte
+	demand := "" // "error", "accept" or "" (no demand)
+	switch layout {
+	case "one-line":
+		text = with(line(val.v))
+		if val.v != realCRC {
+			demand = "error"
+		} else {
+			demand = "accept"
+		}
+	case "absent":
+		text = with()
+		demand = "accept"
+	case "two-lines":
+		// off the grammar; if every stated value is wrong the block cannot be accepted
+		text = with(line(val.v), line(val.v^0x55))
+		if val.v != realCRC && val.v^0x55 != realCRC {
+			demand = "error"
+		}
+	case "before-body-end":
+		// a checksum line, then more radix-64 data
+		more := refpgp.EncodeArmor(a.typ, nil, []byte("tail"), 64, "\n", false)
+		s := bytes.Index(more, []byte("\n\n")) + 2
+		e := bytes.LastIndex(more, []byte("-----END "))
+		text = append(append(append([]byte{}, base[:endAt]...), line(val.v)+"\n"...), more[s:e]...)
+		text = append(text, base[endAt:]...)
+		if val.v != realCRC && val.v != refpgp.CRC24(append(append([]byte{}, body...), "tail"...)) {
+			demand = "error"
+		}
+	case "three-chars":
+		text = with(line(val.v)[:4])
+	case "five-chars":
+		text = with(line(val.v) + "A")
+	default:
+		text = with("=")
+	}
+	d := c46Decode(text, bufSize)
+	if d.pn != nil {
+		rt.Fatalf("VF-VIOLATION: property=C46 armor.Decode %s on\n%s", d.pn, clipS(text))
+	}
+	cls := fmt.Sprintf("armor-checksum:%s/%s", layout, val.name)
+	if layout != "one-line" {
+		cls = "armor-checksum:" + layout
+	}
+	switch demand {
+	case "error":
+		if d.err == nil {
+			rt.Fatalf("VF-VIOLATION: property=C46 armor block whose checksum line states %06x (%s, layout %s) while the %d-byte body has CRC-24 %06x was decoded without error\n%s", val.v, val.name, layout, len(body), realCRC, clipS(text))
+		}
+		c.Case(true, cls+"|"+gen.LenClass(len(body), 3), cls, "armor:crc-mismatch-rejected")
+	case "accept":
+		if d.err != nil || !bytes.Equal(d.body, body) {
+			rt.Fatalf("VF-VIOLATION: property=C46 well-formed armor block (checksum %s) not decoded: err=%v, %d body bytes, want %d\n%s", layout, d.err, len(d.body), len(body), clipS(text))
+		}
+		c.Case(false, "", cls)
+	default:
+		c.Case(false, "", cls+" (no demand)")
 	}
 }
 
@@ -371,9 +470,9 @@ func c46CheckClearsign(rt *rapid.T, c *ev.Collector, p *keyPool, g *gpgEnv) {
 	pn := guard(func() {
 		var w io.WriteCloser
 		if second != nil {
-			w, err = clearsign.EncodeMulti(&buf, []*packet.PrivateKey{signer.ent.PrivateKey, second.ent.PrivateKey}, cfg)
+			w, err = clearsign.EncodeMulti(&buf, []*packet.PrivateKey{signer.signPriv(), second.signPriv()}, cfg)
 		} else {
-			w, err = clearsign.Encode(&buf, signer.ent.PrivateKey, cfg)
+			w, err = clearsign.Encode(&buf, signer.signPriv(), cfg)
 		}
 		if err != nil {
 			return
@@ -431,7 +530,7 @@ func c46CheckClearsign(rt *rapid.T, c *ev.Collector, p *keyPool, g *gpgEnv) {
 	ring := openpgp.EntityList{p.pubRing[indexOfKey(p, signer)]}
 	ent, verr := openpgp.CheckDetachedSignature(ring, bytes.NewReader(blk.Bytes), bytes.NewReader(sigBytes))
 	if verr != nil || ent == nil || ent.PrimaryKey.KeyId != signer.ent.PrimaryKey.KeyId {
-		rt.Fatalf("VF-VIOLATION: property=C46 %s: embedded signature does not verify over Block.Bytes: %v", desc, verr)
+		rt.Fatalf("VF-VIOLATION: property=C46 %s: embedded signature (made with key %x of the entity) does not verify over Block.Bytes: %v", desc, signer.signPriv().KeyId, verr)
 	}
 	// the verdict must not depend on how the reader delivers the signed bytes
 	for _, nr := range readerFamily(rt, "vr", blk.Bytes) {
@@ -455,7 +554,7 @@ func c46CheckClearsign(rt *rapid.T, c *ev.Collector, p *keyPool, g *gpgEnv) {
 		}
 	}
 	nontriv := len(cls) > 1 || (len(cls) == 1 && cls[0] != "line=words")
-	classes := append([]string{"clearsign:round-trip", "clearsign-hash=" + c46HashHeader[h], "clearsign-signer=" + signer.algo}, cls...)
+	classes := append([]string{"clearsign:round-trip", "clearsign-hash=" + c46HashHeader[h], "clearsign-signer=" + signer.signAlgo, "signer-" + signer.shape}, cls...)
 	if second != nil {
 		classes = append(classes, "clearsign:multi")
 	}
@@ -476,10 +575,13 @@ func c46CheckClearsign(rt *rapid.T, c *ev.Collector, p *keyPool, g *gpgEnv) {
 			if k == nil {
 				continue
 			}
-			if h.Size() < gpgMinHashBytes(k) {
+			if h.Size() < k.signMinHash {
 				skip = "gpg-policy:digest-too-short-for-key"
 			}
-			if f35 && isF35(k, h) {
+			if k.noGPGSign {
+				skip = "gpg-policy:signing subkey without cross-certification"
+			}
+			if f35 && isF35(k.signAlgo, h) {
 				skip = "known:F35"
 			}
 		}
@@ -496,10 +598,10 @@ func c46CheckClearsign(rt *rapid.T, c *ev.Collector, p *keyPool, g *gpgEnv) {
 			if e != nil {
 				return e.Error(), nil
 			}
-			if rc != 0 || !statusHas(se, "GOODSIG") || !strings.Contains(string(se), "VALIDSIG "+fprOf(signer)) {
+			if rc != 0 || !statusHas(se, "GOODSIG") || !validSigBy(se, signer) {
 				return "", fmt.Errorf("gpg does not verify the clearsigned text (exit %d): %s", rc, tail(se))
 			}
-			if second != nil && !strings.Contains(string(se), "VALIDSIG "+fprOf(second)) {
+			if second != nil && !validSigBy(se, second) {
 				return "", fmt.Errorf("gpg does not report the second signature: %s", tail(se))
 			}
 			if !bytes.Equal(so, blk.Plaintext) {
@@ -528,11 +630,15 @@ func c46CheckClearsign(rt *rapid.T, c *ev.Collector, p *keyPool, g *gpgEnv) {
 		return
 	}
 	// gpg -> Go
-	if h.Size() < gpgMinHashBytes(signer) {
+	if h.Size() < signer.signMinHash {
 		c.Class("gpg->go skipped: gpg-policy:digest-too-short-for-key")
 		return
 	}
-	if f35 && isF35(signer, h) {
+	if signer.noGPGSign {
+		c.Class("gpg->go skipped: gpg-policy:signing subkey without cross-certification")
+		return
+	}
+	if f35 && isF35(signer.signAlgo, h) {
 		c.Excluded()
 		return
 	}
